@@ -19,7 +19,7 @@ import os
 from . import common
 
 PROPERTY = 'C05'
-LEAN_TARGETS = ['CpProofs.C05', 'CpProofs.C05Sink', 'drv_c05']
+LEAN_TARGETS = ['CpProofs.C05', 'CpProofs.C05Sink', 'CpProofs.C05Process', 'drv_c05']
 DRIVER = 'drv_c05'
 THEOREMS = [
     'CpProofs.C05.C05_refines_cursor',
@@ -41,6 +41,36 @@ THEOREMS = [
     'CpProofs.C05.C05X_exact_in_order',
     'CpProofs.C05.C05X_never_overreads',
     'CpProofs.C05.C05X_never_delivers_beyond_maxbytes',
+    # around the reader (CpModel.ReaderProcess, CpProofs.C05Process)
+    'CpProofs.C05.C05_process_skipped_iff',
+    'CpProofs.C05.C05_process_411_iff',
+    'CpProofs.C05.C05_process_wrapped',
+    'CpProofs.C05.C05_length_absent',
+    'CpProofs.C05.C05_length_chunked',
+    'CpProofs.C05.C05_length_decimal',
+    'CpProofs.C05.C05_length_junk',
+    'CpProofs.C05.lookupProc_exact',
+    'CpProofs.C05.lookupProc_major',
+    'CpProofs.C05.lookupProc_default',
+    'CpProofs.C05.C05_table_formdata',
+    'CpProofs.C05.C05_table_urlencoded',
+    'CpProofs.C05.C05_table_no_content_type',
+    'CpProofs.C05.C05_table_multipart_any',
+    'CpProofs.C05.C05_config_most_specific',
+    'CpProofs.C05.C05_effective_maxbytes',
+    'CpProofs.C05.C05_configured_limit_enforced',
+    'CpProofs.C05.C05_server_limit',
+    'CpProofs.C05.trailerLoop_wellformed',
+    'CpProofs.C05.C05_trailer_once_intact',
+    'CpProofs.C05.C05_no_trailer_untouched',
+    'CpProofs.C05.C05_trailer_intact_once',
+    'CpProofs.C05.C05_trailer_reread_false',
+    'CpProofs.C05.C05_trailer_reread_witness',
+    'CpProofs.C05.C05_trailer_413',
+    'CpProofs.C05.C05_trailer_comma_join',
+    'CpProofs.C05.C05_trailer_last_wins',
+    'CpProofs.C05.C05_trailer_examples',
+    'CpProofs.C05.C05_history_trailer_intact',
 ]
 LEVEL = 'proof'
 TECHNIQUE = ('Lean 4 proof: refinement of SizedReader (buffer, bytes_read, push-back, socket fragmentation) to a '
@@ -83,7 +113,8 @@ class MaxSizeExceeded(Exception):
 
 
 class FragStream:
-    def __init__(self, data, frag, fail_at=None):
+    def __init__(self, data, frag, fail_at=None, fail_kind='max'):
+        self.fail_kind = fail_kind
         self.data = data
         self.pos = 0
         self.frag = list(frag)
@@ -95,6 +126,8 @@ class FragStream:
     def read(self, n=None):
         if self.fail_at is not None:
             if self.fail_at == 0:
+                if self.fail_kind == 'io':
+                    raise ConnectionResetError('connection reset by peer')
                 raise MaxSizeExceeded('Request Entity Too Large', 7)
             self.fail_at -= 1
         self.calls += 1
@@ -202,9 +235,9 @@ def _do_ops(ent, ops, stop_at_error):
                 r = 'b:' + ent.readline(n).hex()
             elif name == 'readlines':
                 r = 'l:' + '/'.join(x.hex() for x in ent.readlines(n))
-            elif name == 'next':
+            elif name in ('next', 'nextm'):
                 try:
-                    r = 'b:' + next(ent).hex()
+                    r = 'b:' + (next(ent) if name == 'next' else ent.next()).hex()
                 except StopIteration:
                     r = 'stop'
             elif name == 'iter':
@@ -235,7 +268,7 @@ def _do_ops(ent, ops, stop_at_error):
 def run_direct(case):
     from cherrypy import _cpreqbody
     c, body = _norm(case)
-    fp = FragStream(body, c['frag'], c['fail_at'])
+    fp = FragStream(body, c['frag'], c['fail_at'], c.get('fail_kind', 'max'))
     rd = _cpreqbody.SizedReader(fp, c['length'], c['maxbytes'], bufsize=c['bufsize'])
     ent = _cpreqbody.Entity.__new__(_cpreqbody.Entity)
     ent.fp = rd
@@ -281,7 +314,7 @@ def _app(maxbytes, bufsize):
 
 def run_wsgi(case):
     c, body = _norm(case)
-    fp = FragStream(body, c['frag'], c['fail_at'])
+    fp = FragStream(body, c['frag'], c['fail_at'], c.get('fail_kind', 'max'))
     env = {'REQUEST_METHOD': 'POST', 'PATH_INFO': '/', 'SCRIPT_NAME': '', 'QUERY_STRING': '',
            'SERVER_NAME': 'x', 'SERVER_PORT': '80', 'SERVER_PROTOCOL': 'HTTP/1.1', 'HTTP_HOST': 'x',
            'wsgi.version': (1, 0), 'wsgi.url_scheme': 'http', 'wsgi.input': fp,
@@ -372,7 +405,8 @@ def oracle(case, obs):
                     bad.append(('%s raised %s after delivering %r..., which is not the next %d bytes of the body '
                                 '(offset %d: %r...)' % (op, st, part[:24], len(part), pos, avail[pos:pos + 24]),
                                 'order:partial_' + name))
-                if not (st == 'e413' and (ext_fail or (m is not None and len(avail) > m))):
+                io_fail = ext_fail and c.get('fail_kind') == 'io' and st == 'x:ConnectionResetError'
+                if not io_fail and not (st == 'e413' and (ext_fail or (m is not None and len(avail) > m))):
                     bad.append(('%s -> %s although the body (%d bytes) is within the limit %s'
                                 % (op, st, len(avail), m), 'spurious_error:' + st.split(':')[0]))
             errored = True
@@ -391,7 +425,7 @@ def oracle(case, obs):
         rest = avail[pos:]
         if r == 'stop':
             got = b''
-            if name != 'next' or rest:
+            if name not in ('next', 'nextm') or rest:
                 bad.append(('%s raised StopIteration with %d bytes left' % (op, len(rest)), 'content:next'))
         elif r[:2] in ('l:', 'y:'):
             parts = [bytes.fromhex(x) for x in r[2:].split('/')] if r[2:] else []
@@ -438,7 +472,7 @@ def oracle(case, obs):
                     if not ln.startswith(got) or (rest and not got):
                         bad.append(('readline(%d) returned %r, next line is %r' % (n, got[:40], ln[:40]),
                                     'content:readline_n'))
-            elif name == 'next':
+            elif name in ('next', 'nextm'):
                 if not rest or got != _line(rest):
                     bad.append(('next() returned %r, next line is %r' % (got[:40], _line(rest)[:40]),
                                 'content:next'))
@@ -469,6 +503,8 @@ def oracle(case, obs):
             bad.append(('body of %d bytes fully delivered with maxbytes=%d' % (len(avail), m), 'missing_413'))
     if c.get('via') == 'wsgi':
         want = 413 if (obs['outs'] and obs['outs'][-1].startswith('e413')) else 200
+        if c.get('fail_kind') == 'io' and obs['outs'] and obs['outs'][-1].startswith('x:ConnectionResetError'):
+            want = obs['status']            # the connection broke: whatever the handler made of it
         if obs['outs'] and not _is_ok(obs['outs'][-1]) and not obs['outs'][-1].startswith('e413'):
             want = obs['status']
         if obs['status'] != want:
@@ -486,8 +522,9 @@ def _opt(x):
 def model_line(case, nops=None):
     c, body = _norm(case)
     ops = c['ops'] if nops is None else c['ops'][:nops]
-    ops = [o.replace('rifmk', 'rif') for o in ops]
-    return ' '.join([_opt(c['length']), _opt(c['maxbytes']), str(c['bufsize']), _opt(c['fail_at']),
+    ops = [o.replace('rifmk', 'rif').replace('nextm', 'next') for o in ops]
+    fail_at = None if c.get('fail_kind') == 'io' else c['fail_at']
+    return ' '.join([_opt(c['length']), _opt(c['maxbytes']), str(c['bufsize']), _opt(fail_at),
                      body.hex() or '-', ','.join(map(str, c['frag'])) or '-', ','.join(ops) or '-'])
 
 
@@ -581,6 +618,7 @@ def gen_case(rng, big=False):
     else:
         frag = [rng.choice([0, 0, 1, 2, 3, 6, 15, 100, 5000]) for _ in range(rng.choice([3, 10, 40, 200]))]
     fail_at = rng.choice([0, 1, 2, 3, 5]) if rng.random() < 0.05 else None
+    fail_kind = 'io' if fail_at is not None and rng.random() < 0.25 else 'max'
     nops = rng.randint(1, 14 if not big else 6)
     maxline = max(len(x) for x in body.split(b'\n')) + 1
     sizes = [1, 1, 2, 3, 4, 5, 7, max(1, bufsize - 1), bufsize, bufsize + 1, 2 * bufsize + 1, max(1, avail - 1),
@@ -607,7 +645,7 @@ def gen_case(rng, big=False):
         elif kind == 'readlinesh':
             ops.append('readlines:%d' % rng.choice(sizes))
         elif kind == 'next':
-            ops.append('next')
+            ops.append(rng.choice(['next', 'next', 'next', 'nextm']))
         elif kind == 'readfp':
             ops.append(rng.choice(['readfp', 'readfp:%d' % rng.choice(sizes), 'readfp:%d' % rng.choice(sizes)]))
         elif kind == 'rif':
@@ -623,6 +661,8 @@ def gen_case(rng, big=False):
     via = 'wsgi' if rng.random() < 0.3 else 'direct'
     case = {'body_hex': body.hex(), 'length': length, 'maxbytes': maxbytes, 'bufsize': bufsize, 'frag': frag,
             'fail_at': fail_at, 'ops': ops, 'via': via}
+    if fail_kind == 'io':
+        case['fail_kind'] = 'io'    # the stream fails with something that is not the size limit: propagated
     if via == 'wsgi' and rng.random() < 0.04:
         case['nolen411'] = True
         case['length'] = None
@@ -653,7 +693,7 @@ def _kind(op):
 
 def case_key(case):
     c, _ = _norm(case)
-    return json.dumps([c['body_hex'], c['length'], c['maxbytes'], c['bufsize'], c['fail_at'], c['ops'],
+    return json.dumps([c['body_hex'], c['length'], c['maxbytes'], c['bufsize'], c['fail_at'], c.get('fail_kind'), c['ops'],
                        c['via'], bool(c.get('nolen411')), len(c['frag']), c['frag'][:8]])
 
 
@@ -697,6 +737,12 @@ def check_cases(ctx, cases, compare=True, stats=True):
             ctx.compared()
             m = parse_model(model[i])
             impl = {'outs': obs['outs'], 'off': obs['off']}
+            if c.get('fail_kind') == 'io':
+                # the model has no such event: compare what happened before it
+                k = next((j for j, o in enumerate(impl['outs']) if o.startswith('x:ConnectionResetError')), None)
+                if k is not None:
+                    impl = {'outs': impl['outs'][:k], 'off': 0}
+                    m = {'outs': m['outs'][:k], 'off': 0}
             if impl != m and not fails:
                 k = next((j for j, (a, b) in enumerate(zip(impl['outs'], m['outs'])) if a != b), None)
                 what = ('op %d (%s)' % (k, c['ops'][k]) if k is not None else
@@ -714,12 +760,17 @@ def corpus_cases():
     return out
 
 
+def tables(ctx):
+    from . import c05_proc
+    return c05_proc.tables(ctx)
+
+
 def regression_cases(ctx):
     """Witnesses of the repaired defects (findings `fixed`), on both routes and two buffer sizes."""
     out = []
     for e in ctx.known:
         w = e.get('witness')
-        if not w:
+        if not w or w.get('kind'):
             continue
         for via in ('direct', 'wsgi'):
             for bufsize in (8192, 64):
@@ -782,6 +833,10 @@ def _worker(args):
     w = _WorkerCtx(DRIVER)
     cases = _gen_batch((seed, n, big_every))
     check_cases(w, cases)
+    from . import c05_proc
+    import random
+    rng = random.Random(seed ^ 0x5bd1e995)
+    c05_proc.check_cases(w, [c05_proc.gen_case(rng) for _ in range(n // 2)])
     return w.cases, w.hist, w.kept_fails(), w.disagreements[:20], w.ncompared, w.driver.lines
 
 
@@ -803,12 +858,43 @@ def merge_worker(ctx, res):
         ctx.driver.lines += lines
 
 
+ANCHORED = ['SizedReader', 'RequestBody.process', 'Entity.read', 'Entity.readline', 'Entity.readlines',
+            'Entity.__iter__', 'Entity.__next__', 'Entity.next', 'Entity.read_into_file', 'Entity.make_file']
+
+
 def run(ctx):
+    from . import c05_cov
+    c05_cov.start()
+    try:
+        _run(ctx)
+        if not ctx.quick():
+            # the worker processes of the thorough tier are not monitored: a sample in this process
+            import random
+            rng = random.Random(ctx.seed)
+            from . import c05_proc
+            check_cases(ctx, [gen_case(rng, big=(i % 60 == 59)) for i in range(1500)], compare=False, stats=False)
+            c05_proc.check_cases(ctx, [c05_proc.gen_case(rng) for _ in range(1500)], compare=False, stats=False)
+        from cherrypy import _cpreqbody
+        ctx.extra['anchored_lines_not_executed'] = c05_cov.not_executed(_cpreqbody, ANCHORED)
+        ctx.extra['anchored_lines_explained'] = (
+            'SizedReader.read: the `raise HTTPError(413)` right after bytes were taken from the push-back buffer '
+            'is dead code - buffered bytes were counted and checked when they came off the stream (the model has '
+            'the branch; CpProofs.C05.read_post shows the state it needs is unreachable under the invariant)')
+    finally:
+        c05_cov.stop()
+
+
+def _run(ctx):
+    from . import c05_proc
     check_cases(ctx, regression_cases(ctx))
-    check_cases(ctx, corpus_cases())
+    corpus = corpus_cases()
+    check_cases(ctx, [c for c in corpus if not c.get('kind')])
+    c05_proc.check_cases(ctx, [e['witness'] for e in ctx.known if (e.get('witness') or {}).get('kind')]
+                         + [c for c in corpus if c.get('kind')], stats=False)
     if ctx.quick():
         cases = [gen_case(ctx.rng, big=(i % 60 == 59)) for i in range(3500)]
         check_cases(ctx, cases)
+        c05_proc.check_cases(ctx, [c05_proc.gen_case(ctx.rng) for _ in range(2500)])
     else:
         nproc = 12
         seeds = [ctx.rng.randrange(1 << 30) for _ in range(nproc * 4)]
@@ -824,7 +910,7 @@ def run(ctx):
 def search(ctx, around=None):
     """Oracle-only hunt, biased to the neighbourhood of a disagreeing case."""
     cases = []
-    if around is not None:
+    if around is not None and not around.get('kind'):
         c, body = _norm(around)
         for _ in range(3000):
             d = dict(c)
@@ -844,11 +930,23 @@ def search(ctx, around=None):
             cases.append(d)
     cases += [gen_case(ctx.rng, big=(i % 80 == 79)) for i in range(20000)]
     check_cases(ctx, cases, compare=False, stats=False)
+    from . import c05_proc
+    c05_proc.check_cases(ctx, [c05_proc.gen_case(ctx.rng) for _ in range(20000)], compare=False, stats=False)
     if not ctx.oracle_failures:
         check_cases(ctx, list(enum_small()), compare=False, stats=False)
 
 
 def replay(ctx, case):
+    if case.get('kind'):
+        from . import c05_proc
+        obs = c05_proc.RUN[case['kind']](case)
+        print('case   :', json.dumps(case)[:1500])
+        print('impl   :', json.dumps(obs, default=repr)[:1500])
+        m = ctx.model([c05_proc.LINE[case['kind']](case)])
+        if m:
+            print('model  :', m[0][:1500])
+        c05_proc.check_cases(ctx, [case], stats=False)
+        return
     obs = run_real(case)
     c, body = _norm(case)
     print('case   :', json.dumps({k: v for k, v in c.items() if k != 'frag'}), 'frag[:12]=', c['frag'][:12])
